@@ -27,6 +27,8 @@ D = decimal.Decimal
 
 
 def gen_cases(tier, seed):
+    # the processors of this property once more with assertions disabled (python -O) against a normal interpreter
+    yield {'family': 'optimized_differential', 'idx': 9 * 10 ** 6, 'seed': seed, 'spill': False, 'big': False, 'proc': 'optimized_differential', 'names': ['a'], 'selector': None}
     n = {'quick': 400, 'thorough': 8000}[tier]
     for fam in FAMILIES:
         for i in range(n):
@@ -76,6 +78,9 @@ def base_table(rng, rn, nrows):
 
 
 def run_case(case):
+    if case['family'] == 'optimized_differential':
+        from vlib import optlab
+        return optlab.as_case_result(['filter_rows', 'filter_equals', 'deduplicate', 'unpivot'], {'rows_compared': 0, 'cells_accounted': 0})
     fam = case['family']
     nested = False
     rng = boot.rng(case['seed'], 'C17', fam, case['idx'])
